@@ -823,3 +823,91 @@ def c02_o(ctx):
     n = parallelism_sweep(ctx)
     if n < 5:
         ctx.undecided('expected at least 5 reads of max_parallel_batches, found {}'.format(n))
+
+
+def ambient_fallback_sweep(ctx):
+    """Every place that names the process-wide generator `np.random` as a *value* (a default for
+    a generator argument).  It may only stand in for a generator / seed the caller did not give:
+    `X or np.random`, `np.random if X is None else <X or a generator built from X>`,
+    `if X is None: X = np.random`."""
+    n = 0
+
+    def is_np_random(e):
+        return isinstance(e, ast.Attribute) and e.attr == 'random' and \
+            isinstance(e.value, ast.Name) and e.value.id in ('np', 'numpy')
+
+    def missing_test(test, want_missing):
+        """test says `X is None` / `not X` (want_missing) or `X is not None` / `X`."""
+        if isinstance(test, ast.Compare) and len(test.ops) == 1 and \
+                isinstance(test.comparators[0], ast.Constant) and \
+                test.comparators[0].value is None and isinstance(test.left, ast.Name):
+            is_none = isinstance(test.ops[0], (ast.Is, ast.Eq))
+            return test.left.id if is_none == want_missing else None
+        if isinstance(test, ast.UnaryOp) and isinstance(test.op, ast.Not):
+            if isinstance(test.operand, ast.Name):
+                return test.operand.id if want_missing else None
+            return missing_test(test.operand, not want_missing)
+        if isinstance(test, ast.Name):
+            return test.id if not want_missing else None
+        return None
+    for m in ctx.repo.modules.values():
+        if not m.name.startswith('elfi') or m.name.startswith('elfi.examples') or \
+                m.name.startswith('elfi.visualization'):
+            continue
+        for f in m.all_functions:
+            fnode = getattr(f, 'node', None)
+            if fnode is None or isinstance(fnode, ast.Lambda):
+                continue
+            for x in own_nodes(fnode):
+                if not is_np_random(x):
+                    continue
+                p = getattr(x, '_parent', None)
+                if isinstance(p, ast.Attribute) or (isinstance(p, ast.Call) and p.func is x):
+                    continue      # np.random.RandomState(...), np.random.seed: other rules
+                n += 1
+                ok, how = False, ''
+                if isinstance(p, ast.BoolOp) and isinstance(p.op, ast.Or) and p.values[-1] is x \
+                        and all(isinstance(v, ast.Name) for v in p.values[:-1]):
+                    ok, how = True, '`{} or np.random`'.format(p.values[0].id)
+                elif isinstance(p, ast.IfExp):
+                    name = missing_test(p.test, want_missing=(p.body is x))
+                    other = p.orelse if p.body is x else p.body
+                    if name is not None and any(isinstance(y, ast.Name) and y.id == name
+                                                for y in ast.walk(other)):
+                        ok, how = True, '`np.random` exactly when `{}` is missing'.format(name)
+                elif isinstance(p, ast.Assign) and len(p.targets) == 1 and \
+                        isinstance(p.targets[0], ast.Name):
+                    q = getattr(p, '_parent', None)
+                    if isinstance(q, ast.If) and p in q.body and \
+                            missing_test(q.test, True) == p.targets[0].id:
+                        ok, how = True, 'default under `{} is None`'.format(p.targets[0].id)
+                    elif isinstance(q, ast.If) and p in q.orelse and \
+                            missing_test(q.test, False) == p.targets[0].id:
+                        ok, how = True, 'default under `{} is None`'.format(p.targets[0].id)
+                elif isinstance(p, ast.Return):
+                    ok, how = f.name in ('get_np_random',), 'the accessor of the process-wide ' \
+                        'generator (used only for seed == "global", C02-l)'
+                ctx.check(ok, f, 'the process-wide generator only stands in for a missing one', how,
+                          '`{}` in {} uses np.random where the caller\'s generator / seed was '
+                          'given (or drops the caller\'s generator): the draws no longer depend on '
+                          'the seed alone'.format(src(_stmt_up2(x))[:70], f.qname.split(':')[-1]),
+                          fn=f, node=x)
+    return n
+
+
+def _stmt_up2(n):
+    while n is not None and not isinstance(n, ast.stmt):
+        n = getattr(n, '_parent', None)
+    return n
+
+
+@obligation('C02-p', 'T10 T11', 'the process-wide generator is named as a value only as the default '
+            'for a generator or seed the caller did not give', floor=5,
+            necessary='a seeded sampler hands its own generator to these helpers (joint prior '
+                      'draws, mixture proposals, optimiser starts, acquisition noise): if the '
+                      'default replaces a generator that was given, the run depends on the state '
+                      'of the global numpy generator')
+def c02_p(ctx):
+    n = ambient_fallback_sweep(ctx)
+    if n < 5:
+        ctx.undecided('expected at least 5 default-generator sites, found {}'.format(n))
